@@ -55,6 +55,7 @@ ASSUMPTIONS = ["scipy.sparse.csgraph.breadth_first_order returns the nodes reach
                "numpy arithmetic propagates NaN", "transient=False"]
 TECHNIQUE = "per-class value numbering of extract_results with selector/NaN-strictness analysis; CFG dominance; structural agreement checks"
 EXPLANATION += (' ' + "(R4.12) where the component models share a junction value among the elements connected to it, the multiplicity counts in-service elements only: the keys of every counting grouping (np.unique(.., return_counts=True), _sum_by_group with a ones_like value) are rows selected by the table's in_service flag, in the function or -- for keys that are a parameter -- in the argument of every call.")
+EXPLANATION += (' ' + '(R4.13, shared with C03 R3.7) a row window is read from the window table of the array it is applied to; the hooks of the Newton loop get the reduced pit together with the reduced window table.')
 
 
 def _shape(ok, what):
